@@ -18,7 +18,7 @@ from . import formats, readcamp as R, scripts as S, abscheck
 LE, BE = 0x10000000, 0x20000000
 KF_NARROW = "KF-C18-DOUBLE-NARROW"
 KF_STAGING = "KF-C18-STAGING-MISALIGN"
-KF_TINY = "KF-C18-PEAK-SUBNORMAL"      # what is left of KF-C18-TINY-FLUSH since the IEEE-writer repair (that entry's witness is a regression test now)
+KF_TINY = "KF-C18-PEAK-SUBNORMAL"      # repaired (the portable writers encode exponent field 0): a regression test now, never waived; gen_subnormal_jobs covers the class on every run
 KF_CALC_RW = "KF-C18-CALC-RDWR-BLOCK"
 TINY = Fraction(1e-30)       # the double constant of src/float32.c:316/351, exactly
 TIMESTAMP = 1000000000
@@ -474,6 +474,62 @@ def gen_job(rng, name, container, enc, ch, caller, scale, shape, part, valmode):
     return Job(name, container, enc, ch, scale, calls, tags)
 
 
+def gen_subnormal_jobs(rng, k0):
+    """channel maxima whose binary32 has exponent field 0 (the class of the repaired KF-C18-PEAK-SUBNORMAL), always present whatever
+    the seed: every container x both encodings; FLOAT files: 2^-149, 2^-148, 2^-127, the largest subnormal, FLT_MIN (the boundary), seeded subnormals, through
+    the float and the double caller; DOUBLE files additionally maxima that are no binary32 (ties and near-ties between two subnormals,
+    the value just below FLT_MIN that rounds up to it, 2^-150 / 2^-151 that round to 0)."""
+    jobs = []
+    k = k0
+    fixed32 = [1, 2, 3, 0x00400000, 0x007FFFFF, 0x00800000, 0x00000100, 0x00012345, 0x00800001]      # ... FLT_MIN and its successor: the boundary of the class
+    for container in CONTAINERS:
+        for enc in ("f32", "f64"):
+            for variant in range(2):
+                ch = 1 + (k % 4)
+                F = rng.choice([3, 4, 6])
+                caller = enc if variant == 0 or enc == "f64" else "f64"
+                maxima = []
+                for c in range(ch):
+                    m32 = fixed32[(k + c) % len(fixed32)] if rng.random() < 0.6 else rng.randrange(1, 0x00800000)
+                    if enc == "f32" or variant == 0:
+                        maxima.append(("f32", m32))
+                    else:
+                        # a double strictly inside the subnormal binary32 range that is no binary32: m32 + frac units of 2^-149
+                        frac = rng.choice([0.5, 0.25, 0.75, 2.0 ** -20, 1 - 2.0 ** -20])
+                        m32 = rng.choice([m32, 0x007FFFFF, 0, 0]) if rng.random() < 0.5 else m32
+                        if m32 == 0:
+                            frac = rng.choice([0.5, 0.25, 0.75])          # 2^-150 (tie, to even = 0), 2^-151 (to 0), 1.5 * 2^-150 (to 2^-149)
+                        maxima.append(("f64", f64b((m32 + frac) * 2.0 ** -149)))
+                table = []
+                for f in range(F):
+                    row = []
+                    for c in range(ch):
+                        kind, mx = maxima[c]
+                        if kind == "f32":
+                            v = rng.randrange(0, mx) if mx > 1 and rng.random() < 0.8 else 0
+                            v |= rng.getrandbits(1) << 31
+                            row.append(v if caller == "f32" else widen(v))
+                        else:
+                            v = f64b(b2f64(mx) * rng.choice([0.0, 0.25, 0.5, 0.96875]))
+                            row.append(v | (rng.getrandbits(1) << 63))
+                    table.append(row)
+                for c in range(ch):
+                    kind, mx = maxima[c]
+                    f = rng.randrange(F)
+                    v = mx if kind == "f64" else (mx if caller == "f32" else widen(mx))
+                    table[f][c] = v | (rng.getrandbits(1) << (31 if caller == "f32" else 63))
+                items = [table[f][c] for f in range(F) for c in range(ch)]
+                cut = rng.randrange(0, F + 1) * ch
+                calls = [(caller, rng.choice("if"), items[:cut]), (caller, rng.choice("if"), items[cut:])]
+                calls = [c for c in calls if c[2]]
+                tags = {"container": container, "enc": enc, "ch": ch, "caller": "same" if caller == enc else "otherfloat", "scale": 0,
+                        "shape": "subnormal", "part": "odd", "valmode": "subnormal", "frames": F}
+                name = "p%04d-%s-%s-c%d-%s-subnormal" % (k, container, enc, ch, caller)
+                jobs.append(Job(name, container, enc, ch, 0, calls, tags))
+                k += 1
+    return jobs
+
+
 def gen_peak_jobs(rng, n):
     jobs = []
     conts = list(CONTAINERS)
@@ -504,6 +560,7 @@ def gen_peak_jobs(rng, n):
                 name = "p%04d-%s-%s-c%d-%s%d-%s-%s-%s" % (k, container, enc, ch, caller, scale, "last", "big", "stagefix")
                 jobs.append(gen_job(rng, name, container, enc, ch, caller, scale, "last", "big", "exact32" if enc == "f64" else "any"))
                 k += 1
+    jobs += gen_subnormal_jobs(rng, k)
     return jobs
 
 
@@ -565,20 +622,18 @@ def check_peak_job(job, obs, calls=None):
         # the maximum as a double (exact: the file type is binary32 or binary64)
         d = widen(bb) if enc == "f32" else bb
         exp_d.append(d)
-        # the chunk field is a binary32 (PEAK chunk definition): a DOUBLE maximum is stored rounded to nearest even;
-        # float32_le_write / float32_be_write leave 0 for |x| < FLT_MIN (zero and binary32 subnormals): class "peak-tiny"
+        # the chunk field is a binary32 (PEAK chunk definition): a DOUBLE maximum is stored rounded to nearest even.
+        # Since the repair of KF-C18-PEAK-SUBNORMAL float32_le_write / float32_be_write encode exponent field 0: a maximum whose
+        # binary32 is subnormal is stored as that subnormal (one that rounds to 0 is stored as 0).
         r32 = f32b(b2f64(d))
-        # a maximum that rounds to 0 in binary32 is correctly stored as 0 (no finding); one whose binary32 is subnormal is flushed (KF_TINY)
-        tiny = m > 0 and 0 < (r32 & 0x7FFFFFFF) < 0x00800000
-        st32 = 0 if tiny else r32
+        st32 = r32
         exp_r.append(widen(st32))
         if "vals" in obs and len(obs["vals"]) == ch:
             if obs["vals"][c] != st32:
-                probs.append(("peak", "channel %d: PEAK value %s (=%r), the binary32 of the true max |x| is %s (max=%r, binary64 %s)"
-                              % (c, hx32(obs["vals"][c]), b2f32(obs["vals"][c]), hx32(st32), float(m), hx64(d))))
-            elif tiny:
-                probs.append(("peak-tiny", "channel %d: PEAK value 00000000, true max |x| is %r (binary64 %s, binary32 %s is below FLT_MIN)"
-                              % (c, float(m), hx64(d), hx32(r32))))
+                sub = 0 < (r32 & 0x7FFFFFFF) < 0x00800000
+                probs.append(("peak", "channel %d: PEAK value %s (=%r), the binary32 of the true max |x| is %s (max=%r, binary64 %s)%s"
+                              % (c, hx32(obs["vals"][c]), b2f32(obs["vals"][c]), hx32(st32), float(m), hx64(d),
+                                 " -- a SUBNORMAL binary32 (exponent field 0; the class of the repaired KF-C18-PEAK-SUBNORMAL)" if sub else "")))
             if obs["poss"][c] != pos:
                 probs.append(("peak", "channel %d: PEAK position %d, first frame holding the maximum is %d" % (c, obs["poss"][c], pos)))
     for side in "wr":
@@ -645,8 +700,8 @@ def compare_model(job, obs, mline):
     elif obs["chunk"].hex() != kv["chunk"]:
         probs.append("PEAK chunk bytes: implementation %s model %s" % (obs["chunk"].hex(), kv["chunk"]))
     mp_w = mp
-    # after re-open the values come from the chunk, a binary32 where float32_le/be_write left 0 for |x| < FLT_MIN (Sf.wrF32)
-    mp_r = [((0 if f32b(b2f64(v)) % 2 ** 31 < 0x00800000 else widen(f32b(b2f64(v)))), p) for v, p in mp]
+    # after re-open the values come from the chunk: the binary32 of the maximum, exact since the repair of KF-C18-PEAK-SUBNORMAL (Sf.PeakExact.wrF32)
+    mp_r = [(widen(f32b(b2f64(v))), p) for v, p in mp]
     for side in "wr":
         mp = mp_w if side == "w" else mp_r
         g = obs.get(side + "1045")
@@ -718,13 +773,10 @@ def peak_campaign(ctx, quick=True, njobs=None, model=True):
             stats["dead"] += 1
             continue
         probs += check_peak_job(job, obs)
-        hard = [p for p in probs if p[0] not in ("peak", "peak-tiny")]
+        hard = [p for p in probs if p[0] != "peak"]
         soft = [p for p in probs if p[0] == "peak"]
-        tinyp = [p for p in probs if p[0] == "peak-tiny"]
-        if tinyp:
-            # class KF-C18-TINY-FLUSH: the channel's maximum is non-zero but its binary32 is subnormal / zero; chunk value 0, everything else as expected
-            findings.append(Finding("truth", job.name, "non-zero maximum below FLT_MIN stored as 0 (float32_le_write/float32_be_write return early): " + "; ".join(t for _, t in tinyp[:4]), script, kf=KF_TINY, job=job, cat="peak-tiny"))
-            stats["truth-mismatch:peak-tiny"] += 1
+        if job.tags.get("shape") == "subnormal":
+            stats["subnormal_maxima_channels"] += job.ch
         if hard:
             findings.append(Finding("truth", job.name, "; ".join(t for _, t in hard[:4]), script, job=job, cat=hard[0][0]))
         if soft:
